@@ -81,6 +81,9 @@ CALLS = [
     ('K.target3', ['a', 'b'], 2),
     ('K.DC', ['a', 'b'], 2),
     # configurable callables bound to module-level names that are spelled like builtins
+    # bound methods of a module-level instance (one of them behind a forwarding decorator)
+    ('K.meth_instance.apply', ['x', 'y'], 2),
+    ('K.meth_instance.wrapped', ['a', 'b'], 2),
     ('filter', ['x', 'y'], 2),
     ('format', ['a', 'b', 'c'], 3),
     ('sum', ['x', 'child'], 2),
@@ -288,6 +291,7 @@ def make_module(rng, modname):
   """Returns (source text, [program descriptors])."""
   src = [HEADER]
   progs = []
+  extra_progs = []
   nprogs = rng.randint(3, 6)
   for i in range(nprogs):
     kind = rng.choice(['plain', 'plain', 'plain', 'cf', 'closure', 'static', 'class', 'lambda', 'noninline'])
@@ -315,11 +319,21 @@ def make_module(rng, modname):
       p.build()
       first = 'cls' if kind == 'class' else None
       d2 = '@classmethod' if kind == 'class' else '@staticmethod'
+      if kind == 'class' and p.lines and p.lines[-1].startswith('return '):
+        # the result depends on WHICH class the inherited classmethod was reached through
+        p.lines[-1] = 'return K.two(cls.__name__, ' + p.lines[-1][len('return '):] + ')'
       body = '\n'.join('    ' + l for l in p.lines)
       src.append(f'class H{i}:\n  @{deco}\n  {d2}\n  def {name}({p.params_text(first)}):\n{body}\n\n'
-                 f'  {d2}\n  def raw_{name}({p.params_text(first)}):\n{body}\n\n')
+                 f'  {d2}\n  def raw_{name}({p.params_text(first)}):\n{body}\n\n'
+                 f'class H{i}Sub(H{i}):\n  pass\n\n')
       p.callname, p.rawname = f'H{i}.{name}', f'H{i}.raw_{name}'
       p.text = body
+      if kind == 'class':
+        import copy as _copy
+        p_sub = _copy.copy(p)
+        p_sub.callname, p_sub.rawname = f'H{i}Sub.{name}', f'H{i}Sub.raw_{name}'
+        p_sub.constructs = set(p.constructs) | {'inherited-classmethod'}
+        extra_progs.append(p_sub)
     elif kind == 'closure':
       p.build()
       body = '\n'.join('    ' + l for l in p.lines)
@@ -341,7 +355,7 @@ def make_module(rng, modname):
       p.callname, p.rawname = name, f'raw_{name}'
       p.text = body
     progs.append(p)
-  return ''.join(src), progs
+  return ''.join(src), progs + extra_progs
 
 
 # ---------------------------------------------------------------------------------------
